@@ -172,7 +172,7 @@ def findMatchingNodes (O : AGraph) (A : AGraph) : AR :=
 
 /-- is the operation part of the reference interface (single graph, plus `find_matching_nodes`) -/
 def covers : Op → Bool
-  | .addGraph .. | .addGraphDirect .. | .clone .. | .mergeNodes .. => false
+  | .addGraph .. | .addGraphDirect .. | .clone .. | .mergeNodes .. | .delAllGraphs => false
   | _ => true
 
 /-- `other` = content of the second graph of `find_matching_nodes` (ignored by every other operation) -/
